@@ -341,6 +341,34 @@ def block_maximum_size_on_every_path(prog, res):
     res.need(R, 4)
 
 
+def repeat_mode_armed_by_any_sequences_block(prog, res):
+    """T9 (siblings / format): Repeat_Mode reuses the tables of the previous block that had sequences, whatever their mode
+    (Predefined and RLE included).  The decoder allows Repeat_Mode once `dctx->fseEntropy` is set: every sequence decoder body
+    (a function that starts the three FSE states from dctx->LLTptr/OFTptr/MLTptr) sets it before it starts them - or the header
+    decoder sets it on a path that does not depend on one of the modes being set_compressed."""
+    R = "T9.repeat-mode-armed-by-any-sequences-block"
+    bodies = [f for f in prog.fns_in("decompress/zstd_decompress_block.c") if f.name != "ZSTD_initFseState" and len(f.call_roots("ZSTD_initFseState")) >= 3]
+    def arms(f):
+        return f.find_roots(lambda x: x.get("k") == "asg" and x.get("op") == "=" and strip_casts(x["lhs"]).get("k") == "mem" and strip_casts(x["lhs"]).get("f") == "fseEntropy"
+                            and const_val(x["rhs"]) == 1)
+    h = prog.fn("ZSTD_decodeSeqHeaders")
+    ha = arms(h)
+    byheader = False
+    if ha:
+        modetest = [(bid, t) for bid, cond, t, fl in h.branches() if any(y.get("n") == "set_compressed" for y in h.walk_resolved(h.resolve_x(cond)))]
+        byheader = not any(h.must_pass(via_edges=[e], targets=ha) for e in modetest) and not h.must_pass(via_edges=modetest, targets=ha)
+    res.check(len(bodies) >= 3, R, "bodies", "lib/decompress/zstd_decompress_block.c", "%d sequence decoder bodies" % len(bodies), "sequence decoder bodies found: %d" % len(bodies))
+    for f in bodies:
+        a = arms(f)
+        init = f.call_roots("ZSTD_initFseState")
+        ok = byheader or (bool(a) and f.must_pass(via_roots=a, targets=init))
+        res.check(ok, R, f.name, f.loc, "fseEntropy = 1 before the FSE states are started (or set by the header decoder whatever the modes)",
+                  "%s decodes a block with sequences without arming Repeat_Mode for the next block (and ZSTD_decodeSeqHeaders only arms it when a table description "
+                  "was read): a block in Predefined_Mode or RLE_Mode followed by a block in Repeat_Mode - valid, and what ZSTD_c_targetCBlockSize produces - is refused "
+                  "with corruption_detected" % f.name)
+    res.need(R, 4)
+
+
 def run(tier):
     res = Result("C04", tier)
     tus, info = extract(["decompress", "common", "compress"])
@@ -355,6 +383,7 @@ def run(tier):
     x2_fast_loop_bound(prog, res)
     format_exact_huffman_entry(prog, res)
     block_maximum_size_on_every_path(prog, res)
+    repeat_mode_armed_by_any_sequences_block(prog, res)
     return res.finish(
         explanation="The 160 cells of LL/OF/ML_defaultDTable are compared with the table obtained by running the "
                     "format document's construction algorithm (re-implemented in the checker from "
